@@ -1,19 +1,43 @@
 import NmlVerif.Proofs.Geom
+import NmlVerif.Proofs.GeomRounding
 /-!
 # C12 — segment length, surface area and volume are those of the frustum or sphere
+## part 1: `Segment.length`, `Point3DWithDiam.distance_to`
 
-Every theorem below is about the definitions in `Gen/Geom.lean`, which `translators/py2lean_geom.py` regenerates
-from `neuroml/nml/helper_methods.py` and `neuroml/nml/nml.py` on every check run, read at `α = ℝ`
-(`sqrt = Real.sqrt`, `pi = Real.pi`). "To floating-point rounding" is NOT proved here (no IEEE error analysis);
-it is sampled by the numeric correspondence in `harness/props/c12.py`.
+Every theorem of `Props/C12*.lean` is about the definitions in `Gen/Geom.lean`, which `translators/py2lean_geom.py`
+regenerates from `neuroml/nml/helper_methods.py` and `neuroml/nml/nml.py` on every check run, read at `α = ℝ`
+(`sqrt = Real.sqrt`, `pi = Real.pi`), or — for the clause "to floating-point rounding" — evaluated in the standard
+model of floating-point arithmetic (`Proofs/GeomRounding.lean`, a hypothesis; see there for what is trusted).
+
+One Props module per translated function, so that a changed function breaks only the obligations that depend on it:
+
+* `Props/C12.lean`        — `length`, `distance_to`
+* `Props/C12Volume.lean`  — `volume`
+* `Props/C12Area.lean`    — `surface_area`
+* `Props/C12Cell.lean`    — `get_actual_proximal` (inherited proximal point), `get_segment`, parent cycles, fuel
+* `Props/C12Getters.lean` — cell-level getters = segment-level formulas
+* `Props/C12Integral.lean` (thorough tier) — closed forms = integrals; `dist3` = Mathlib's Euclidean distance
+
+Each module also proves `generated = hand-written model` (`gen_eq_hand_*`, `Model/GeomHand.lean`) for its function.
 
 Reference formulas (`Proofs/Geom.lean`): `dist3` (Euclidean distance), `frustumVolume L r₁ r₂ = π/3·L·(r₁²+r₁r₂+r₂²)`,
 `frustumLateralArea L r₁ r₂ = π(r₁+r₂)√((r₁−r₂)²+L²)` (side area, no end discs), `sphereVolume r = 4/3·π·r³`,
-`sphereArea r = 4·π·r²`; in `Props/C12Integral.lean` (thorough tier) the two frustum forms are shown to be the
-integrals of the cross-section area / circumference along the axis.
+`sphereArea r = 4·π·r²`.
 -/
 namespace NmlVerif.Geom.C12
 open NmlVerif.Gen.Geom NmlVerif.Geom
+
+/-! ## generated = hand-written model -/
+
+/-- the regenerated `Point3DWithDiam.distance_to` is the hand-written model, on every pair of points -/
+theorem gen_eq_hand_distance_to (a b : Pt ℝ) : Point3DWithDiam.distance_to a b = Hand.distanceTo a b :=
+  gen_eq_hand_distance_to' a b
+
+/-- the regenerated `Segment.length` is the hand-written model, on every segment (with or without proximal point) -/
+theorem gen_eq_hand_length (s : Seg ℝ) : Segment.length s = Hand.length s := gen_eq_hand_length' s
+
+example : Hand.length (mkSeg (⟨0, 0, 0, 2⟩ : Pt ℝ) ⟨3, 4, 12, 4⟩ none) = .ok (dist3 ⟨0, 0, 0, 2⟩ ⟨3, 4, 12, 4⟩) := by
+  rw [← gen_eq_hand_length, length_eval]
 
 /-! ## length = Euclidean distance -/
 
@@ -25,99 +49,20 @@ theorem length_euclidean (p d : Pt ℝ) (par : Option (Par ℝ)) :
 theorem distance_to_euclidean (a b : Pt ℝ) : Point3DWithDiam.distance_to a b = .ok (dist3 a b) :=
   distance_to_eval a b
 
-/-- error branch: without a proximal point the three properties raise (the cell-level getters are to be used). -/
-theorem no_proximal_raises (d : Pt ℝ) (par : Option (Par ℝ)) :
-    (∃ e, Segment.length (⟨none, d, par⟩ : Seg ℝ) = .error e) ∧
-    (∃ e, Segment.volume (⟨none, d, par⟩ : Seg ℝ) = .error e) ∧
-    (∃ e, Segment.surface_area (⟨none, d, par⟩ : Seg ℝ) = .error e) := by
-  refine ⟨⟨_, length_noprox d par⟩, ⟨⟨"Exception", "Cannot get volume of segment "⟩, ?_⟩,
-    ⟨⟨"Exception", "Cannot get surface area of segment "⟩, ?_⟩⟩
-  · simp [Segment.volume]
-  · simp [Segment.surface_area]
+/-- the distance really is 13 for the 3-4-12 offset (the reference formula is not vacuous) -/
+example : Segment.length (mkSeg (⟨1, 1, 1, 2⟩ : Pt ℝ) ⟨4, 5, 13, 4⟩ none) = .ok 13 := by
+  rw [length_euclidean]
+  have : dist3 (⟨1, 1, 1, 2⟩ : Pt ℝ) ⟨4, 5, 13, 4⟩ = 13 := by
+    unfold dist3
+    rw [show ((1:ℝ) - 4) ^ 2 + (1 - 5) ^ 2 + (1 - 13) ^ 2 = 13 ^ 2 by norm_num]
+    exact Real.sqrt_sq (by norm_num)
+  rw [this]
 
-/-! ## closed forms: frustum, sphere -/
+/-- error branch: without a proximal point `length` raises (the cell-level getter is to be used). -/
+theorem length_no_proximal_raises (d : Pt ℝ) (par : Option (Par ℝ)) :
+    ∃ e, Segment.length (⟨none, d, par⟩ : Seg ℝ) = .error e := ⟨_, length_noprox d par⟩
 
-/-- distinct centres: the volume is that of the conical frustum between the two discs. -/
-theorem volume_frustum (p d : Pt ℝ) (par : Option (Par ℝ)) (h : ¬ Coincident p d) :
-    Segment.volume (mkSeg p d par) = .ok (frustumVolume (dist3 p d) (p.diameter / 2) (d.diameter / 2)) := by
-  rw [volume_eval]; simp [h]
-
-/-- distinct centres: the surface area is the lateral area of the conical frustum. -/
-theorem surface_area_frustum (p d : Pt ℝ) (par : Option (Par ℝ)) (h : ¬ Coincident p d) :
-    Segment.surface_area (mkSeg p d par) =
-      .ok (frustumLateralArea (dist3 p d) (p.diameter / 2) (d.diameter / 2)) := by
-  rw [surface_area_eval]; simp [h]
-
-/-- coincident centres, equal diameters: the volume of the sphere, `4/3·π·r³`. -/
-theorem volume_sphere (p d : Pt ℝ) (par : Option (Par ℝ)) (h : Coincident p d) (hd : p.diameter = d.diameter) :
-    Segment.volume (mkSeg p d par) = .ok (4 / 3 * Real.pi * (p.diameter / 2) ^ 3) := by
-  rw [volume_eval]; simp [h, hd, sphereVolume]
-
-/-- coincident centres, equal diameters: the area of the sphere, `4·π·r²`. -/
-theorem surface_area_sphere (p d : Pt ℝ) (par : Option (Par ℝ)) (h : Coincident p d) (hd : p.diameter = d.diameter) :
-    Segment.surface_area (mkSeg p d par) = .ok (4 * Real.pi * (p.diameter / 2) ^ 2) := by
-  rw [surface_area_eval]; simp [h, hd, sphereArea]
-
-example : ¬ Coincident (⟨0, 0, 0, 2⟩ : Pt ℝ) ⟨1, 0, 0, 4⟩ := by unfold Coincident; norm_num
-example : Coincident (⟨1, 2, 3, 2⟩ : Pt ℝ) ⟨1, 2, 3, 2⟩ ∧ (⟨1, 2, 3, 2⟩ : Pt ℝ).diameter = (⟨1, 2, 3, 2⟩ : Pt ℝ).diameter :=
-  ⟨⟨rfl, rfl, rfl⟩, rfl⟩
-
-/-- what the code does when the centres coincide and the diameters differ: it raises. -/
-theorem coincident_unequal_raises (p d : Pt ℝ) (par : Option (Par ℝ)) (h : Coincident p d)
-    (hd : p.diameter ≠ d.diameter) :
-    (∃ e, Segment.volume (mkSeg p d par) = .error e) ∧ (∃ e, Segment.surface_area (mkSeg p d par) = .error e) := by
-  rw [volume_eval, surface_area_eval]; simp [h, hd]
-
-example : Coincident (⟨0, 0, 0, 2⟩ : Pt ℝ) ⟨0, 0, 0, 4⟩ ∧ (⟨0, 0, 0, 2⟩ : Pt ℝ).diameter ≠ (⟨0, 0, 0, 4⟩ : Pt ℝ).diameter :=
-  ⟨⟨rfl, rfl, rfl⟩, by norm_num⟩
-
-/-! ### the closed-form clause at full strength, and the known finding
-
-The property says: frustum for every segment with both end points, sphere when the points coincide *with equal
-diameters*. For coincident centres with unequal diameters the frustum is degenerate (volume `0`, lateral area
-`π(r₁+r₂)|r₁−r₂|`, an annulus); the code refuses that input with an exception (deliberately; the repo's own test
-`test_cell_with_segs` expects the raise). Recorded as known finding `C12:coincident-unequal-diameters:raises`. -/
-
-open Classical in
-/-- the value the property assigns to `volume` for every segment with both end points -/
-noncomputable def volumeSpec (p d : Pt ℝ) : ℝ :=
-  if Coincident p d ∧ p.diameter = d.diameter then sphereVolume (p.diameter / 2)
-  else frustumVolume (dist3 p d) (p.diameter / 2) (d.diameter / 2)
-
-open Classical in
-/-- the value the property assigns to `surface_area` for every segment with both end points -/
-noncomputable def areaSpec (p d : Pt ℝ) : ℝ :=
-  if Coincident p d ∧ p.diameter = d.diameter then sphereArea (p.diameter / 2)
-  else frustumLateralArea (dist3 p d) (p.diameter / 2) (d.diameter / 2)
-
-/-- FULL statement (false for the current code, see `closed_form_witness`) -/
-def closed_form_full : Prop :=
-  ∀ (p d : Pt ℝ) (par : Option (Par ℝ)),
-    Segment.volume (mkSeg p d par) = .ok (volumeSpec p d) ∧ Segment.surface_area (mkSeg p d par) = .ok (areaSpec p d)
-
-/-- strongest true restriction: everything except coincident centres with unequal diameters -/
-theorem closed_form_partial (p d : Pt ℝ) (par : Option (Par ℝ)) (h : ¬ (Coincident p d ∧ p.diameter ≠ d.diameter)) :
-    Segment.volume (mkSeg p d par) = .ok (volumeSpec p d) ∧ Segment.surface_area (mkSeg p d par) = .ok (areaSpec p d) := by
-  rw [volume_eval, surface_area_eval]
-  unfold volumeSpec areaSpec
-  by_cases hc : Coincident p d
-  · have hd : p.diameter = d.diameter := by
-      by_contra hne; exact h ⟨hc, hne⟩
-    simp [hc, hd]
-  · simp [hc]
-
-example : ¬ (Coincident (⟨0, 0, 0, 2⟩ : Pt ℝ) ⟨1, 0, 0, 4⟩ ∧ (⟨0, 0, 0, 2⟩ : Pt ℝ).diameter ≠ (⟨1, 0, 0, 4⟩ : Pt ℝ).diameter) := by
-  unfold Coincident; norm_num
-
-/-- the full statement fails: centres `(0,0,0)`, diameters `2` and `4` -/
-theorem closed_form_witness : ¬ closed_form_full := by
-  intro h
-  have h1 := (h ⟨0, 0, 0, 2⟩ ⟨0, 0, 0, 4⟩ none).1
-  rw [volume_eval] at h1
-  have hc : Coincident (⟨0, 0, 0, 2⟩ : Pt ℝ) ⟨0, 0, 0, 4⟩ := ⟨rfl, rfl, rfl⟩
-  simp [hc] at h1
-
-/-! ## non-negativity -/
+/-! ## non-negativity, swap, translation, scaling -/
 
 /-- whatever the segment, a returned length is non-negative -/
 theorem length_nonneg (s : Seg ℝ) (v : ℝ) (h : Segment.length s = .ok v) : 0 ≤ v := by
@@ -131,184 +76,68 @@ theorem length_nonneg (s : Seg ℝ) (v : ℝ) (h : Segment.length s = .ok v) : 0
     cases h
     exact dist3_nonneg p d
 
-/-- a returned volume is non-negative when both diameters are -/
-theorem volume_nonneg (p d : Pt ℝ) (par : Option (Par ℝ)) (hp : 0 ≤ p.diameter) (hd : 0 ≤ d.diameter) (v : ℝ)
-    (h : Segment.volume (mkSeg p d par) = .ok v) : 0 ≤ v := by
-  rw [volume_eval] at h
-  split at h
-  · split at h
-    · cases h; exact sphereVolume_nonneg _ (by positivity)
-    · cases h
-  · cases h; exact frustumVolume_nonneg _ _ _ (dist3_nonneg p d) (by positivity) (by positivity)
-
-/-- a returned surface area is non-negative when both diameters are -/
-theorem surface_area_nonneg (p d : Pt ℝ) (par : Option (Par ℝ)) (hp : 0 ≤ p.diameter) (hd : 0 ≤ d.diameter) (v : ℝ)
-    (h : Segment.surface_area (mkSeg p d par) = .ok v) : 0 ≤ v := by
-  rw [surface_area_eval] at h
-  split at h
-  · split at h
-    · cases h; exact sphereArea_nonneg _
-    · cases h
-  · cases h; exact frustumLateralArea_nonneg _ _ _ (by positivity) (by positivity)
-
-example : ∃ v, Segment.volume (mkSeg (⟨0, 0, 0, 2⟩ : Pt ℝ) ⟨1, 0, 0, 4⟩ none) = .ok v ∧
-    (0 : ℝ) ≤ (⟨0, 0, 0, 2⟩ : Pt ℝ).diameter ∧ (0 : ℝ) ≤ (⟨1, 0, 0, 4⟩ : Pt ℝ).diameter :=
-  ⟨_, volume_frustum _ _ _ (by unfold Coincident; norm_num), by norm_num, by norm_num⟩
-example : ∃ v, Segment.surface_area (mkSeg (⟨0, 0, 0, 2⟩ : Pt ℝ) ⟨1, 0, 0, 4⟩ none) = .ok v :=
-  ⟨_, surface_area_frustum _ _ _ (by unfold Coincident; norm_num)⟩
 example : ∃ v, Segment.length (mkSeg (⟨0, 0, 0, 2⟩ : Pt ℝ) ⟨1, 0, 0, 4⟩ none) = .ok v := ⟨_, length_euclidean _ _ _⟩
-
-/-! ## swapping the end points (results *and* refusals are unchanged) -/
 
 theorem length_swap (p d : Pt ℝ) (par par' : Option (Par ℝ)) :
     Segment.length (mkSeg d p par') = Segment.length (mkSeg p d par) := by
   rw [length_eval, length_eval, dist3_comm]
 
-theorem volume_swap (p d : Pt ℝ) (par par' : Option (Par ℝ)) :
-    Segment.volume (mkSeg d p par') = Segment.volume (mkSeg p d par) := by
-  rw [volume_eval, volume_eval]
-  by_cases hc : Coincident p d
-  · have hc' := (coincident_comm p d).mp hc
-    by_cases hd : p.diameter = d.diameter
-    · simp [hc, hc', hd]
-    · have hd' : ¬ d.diameter = p.diameter := fun h => hd h.symm
-      simp [hc, hc', hd, hd']
-  · have hc' : ¬ Coincident d p := fun h => hc ((coincident_comm p d).mpr h)
-    simp [hc, hc', dist3_comm d p, frustumVolume_swap]
-
-theorem surface_area_swap (p d : Pt ℝ) (par par' : Option (Par ℝ)) :
-    Segment.surface_area (mkSeg d p par') = Segment.surface_area (mkSeg p d par) := by
-  rw [surface_area_eval, surface_area_eval]
-  by_cases hc : Coincident p d
-  · have hc' := (coincident_comm p d).mp hc
-    by_cases hd : p.diameter = d.diameter
-    · simp [hc, hc', hd]
-    · have hd' : ¬ d.diameter = p.diameter := fun h => hd h.symm
-      simp [hc, hc', hd, hd']
-  · have hc' : ¬ Coincident d p := fun h => hc ((coincident_comm p d).mpr h)
-    simp [hc, hc', dist3_comm d p, frustumLateralArea_swap]
-
-/-! ## translating the segment (results *and* refusals are unchanged) -/
-
 theorem length_translate (tx ty tz : ℝ) (p d : Pt ℝ) (par : Option (Par ℝ)) :
     Segment.length (mkSeg (p.translate tx ty tz) (d.translate tx ty tz) par) = Segment.length (mkSeg p d par) := by
   rw [length_eval, length_eval, dist3_translate]
 
-theorem volume_translate (tx ty tz : ℝ) (p d : Pt ℝ) (par : Option (Par ℝ)) :
-    Segment.volume (mkSeg (p.translate tx ty tz) (d.translate tx ty tz) par) = Segment.volume (mkSeg p d par) := by
-  exact volume_congr p d _ _ par par (coincident_translate tx ty tz p d) rfl rfl (dist3_translate tx ty tz p d)
-
-theorem surface_area_translate (tx ty tz : ℝ) (p d : Pt ℝ) (par : Option (Par ℝ)) :
-    Segment.surface_area (mkSeg (p.translate tx ty tz) (d.translate tx ty tz) par) =
-      Segment.surface_area (mkSeg p d par) := by
-  exact area_congr p d _ _ par par (coincident_translate tx ty tz p d) rfl rfl (dist3_translate tx ty tz p d)
-
-/-! ## uniform scaling by `k ≥ 0` (coordinates and diameters): `k`, `k²`, `k³` -/
-
+/-- uniform scaling by `k ≥ 0` (coordinates and diameters): the length scales with `k` -/
 theorem length_scale (k : ℝ) (hk : 0 ≤ k) (p d : Pt ℝ) (par : Option (Par ℝ)) (v : ℝ)
     (h : Segment.length (mkSeg p d par) = .ok v) :
     Segment.length (mkSeg (p.scale k) (d.scale k) par) = .ok (k * v) := by
   rw [length_eval] at h; cases h
   rw [length_eval, dist3_scale k hk]
 
-theorem volume_scale (k : ℝ) (hk : 0 ≤ k) (p d : Pt ℝ) (par : Option (Par ℝ)) (v : ℝ)
-    (h : Segment.volume (mkSeg p d par) = .ok v) :
-    Segment.volume (mkSeg (p.scale k) (d.scale k) par) = .ok (k ^ 3 * v) := by
-  rcases eq_or_lt_of_le hk with hk0 | hkpos
-  · -- k = 0: everything collapses to the sphere of radius 0
-    subst hk0
-    rw [volume_sphere_case _ _ par (coincident_scale_zero p d) (by simp [Pt.scale])]
-    congr 1
-    simp [sphereVolume, Pt.scale]
-  · have hk' : k ≠ 0 := ne_of_gt hkpos
-    have hc := coincident_scale k hk' p d
-    by_cases c : Coincident p d
-    · by_cases e : p.diameter = d.diameter
-      · rw [volume_sphere_case p d par c e] at h; cases h
-        rw [volume_sphere_case _ _ par (hc.mpr c) (by simp [Pt.scale, e]), scale_diam, sphereVolume_scale]
-      · rw [volume_raise_case p d par c e] at h; cases h
-    · rw [volume_frustum_case p d par c] at h; cases h
-      rw [volume_frustum_case _ _ par (fun x => c (hc.mp x)), scale_diam, scale_diam, dist3_scale k hk,
-        frustumVolume_scale]
+example : (0 : ℝ) ≤ 3 ∧ ∃ v, Segment.length (mkSeg (⟨0, 0, 0, 2⟩ : Pt ℝ) ⟨1, 0, 0, 4⟩ none) = .ok v :=
+  ⟨by norm_num, _, length_euclidean _ _ _⟩
 
-theorem surface_area_scale (k : ℝ) (hk : 0 ≤ k) (p d : Pt ℝ) (par : Option (Par ℝ)) (v : ℝ)
-    (h : Segment.surface_area (mkSeg p d par) = .ok v) :
-    Segment.surface_area (mkSeg (p.scale k) (d.scale k) par) = .ok (k ^ 2 * v) := by
-  rcases eq_or_lt_of_le hk with hk0 | hkpos
-  · subst hk0
-    rw [area_sphere_case _ _ par (coincident_scale_zero p d) (by simp [Pt.scale])]
-    congr 1
-    simp [sphereArea, Pt.scale]
-  · have hk' : k ≠ 0 := ne_of_gt hkpos
-    have hc := coincident_scale k hk' p d
-    by_cases c : Coincident p d
-    · by_cases e : p.diameter = d.diameter
-      · rw [area_sphere_case p d par c e] at h; cases h
-        rw [area_sphere_case _ _ par (hc.mpr c) (by simp [Pt.scale, e]), scale_diam, sphereArea_scale]
-      · rw [area_raise_case p d par c e] at h; cases h
-    · rw [area_frustum_case p d par c] at h; cases h
-      rw [area_frustum_case _ _ par (fun x => c (hc.mp x)), scale_diam, scale_diam, dist3_scale k hk,
-        frustumLateralArea_scale _ _ _ _ hk]
+/-- instances: swap, translation by (16, −8, 1/2), scaling by 3 of the oblique tapered segment (0,0,0,d=2)–(3,4,12,d=4) -/
+example : Segment.length (mkSeg (⟨3, 4, 12, 4⟩ : Pt ℝ) ⟨0, 0, 0, 2⟩ none) = Segment.length (mkSeg ⟨0, 0, 0, 2⟩ ⟨3, 4, 12, 4⟩ none) :=
+  length_swap _ _ _ _
+example : Segment.length (mkSeg ((⟨0, 0, 0, 2⟩ : Pt ℝ).translate 16 (-8) (1 / 2)) ((⟨3, 4, 12, 4⟩ : Pt ℝ).translate 16 (-8) (1 / 2)) none)
+    = Segment.length (mkSeg ⟨0, 0, 0, 2⟩ ⟨3, 4, 12, 4⟩ none) := length_translate _ _ _ _ _ _
+example : Segment.length (mkSeg ((⟨0, 0, 0, 2⟩ : Pt ℝ).scale 3) ((⟨3, 4, 12, 4⟩ : Pt ℝ).scale 3) none)
+    = .ok (3 * dist3 ⟨0, 0, 0, 2⟩ ⟨3, 4, 12, 4⟩) := length_scale 3 (by norm_num) _ _ _ _ (length_euclidean _ _ _)
 
-example : (0 : ℝ) ≤ 3 ∧ ∃ v, Segment.volume (mkSeg (⟨0, 0, 0, 2⟩ : Pt ℝ) ⟨1, 0, 0, 4⟩ none) = .ok v :=
-  ⟨by norm_num, _, volume_frustum _ _ _ (by unfold Coincident; norm_num)⟩
+/-! ## "to floating-point rounding": the evaluation order of the source, in the standard model of rounding -/
 
-/-! ## cell-level getters = segment formulas with the actual (own or inherited) proximal point -/
+open Rounding in
+/-- **`Segment.length` to rounding.** In any floating-point model with unit roundoff `u ≤ 1` (no overflow /
+    underflow), the value the translated code computes for a segment with both end points exists and lies within
+    4 roundings of the Euclidean distance: `(1-u)⁴·L ≤ v ≤ (1+u)⁴·L`. -/
+theorem length_rounding {u : ℝ} (M : FloatModel u) (hu0 : 0 ≤ u) (hu1 : u ≤ 1) (p d : Pt ℝ) (par : Option (Par ℝ)) :
+    ∃ v, flLength M (mkSeg p d par) = .ok v ∧ Near u 4 v (dist3 p d) := by
+  refine ⟨_, ?_, near_fl_dist M hu0 hu1 p d⟩
+  simp only [flLength, mkSeg]
+  exact flLength_eq M p d par
 
-/-- `get_actual_proximal` returns the point the parent / `fraction_along` definition assigns (`Inherits`),
-    for every fuel above a bound (fuel = Python recursion depth). -/
-theorem actual_proximal_correct (c : Cell ℝ) (id : Nat) (q : Pt ℝ) (h : Inherits c id q) :
-    ∃ n, ∀ fuel, n ≤ fuel → actualProximal c fuel id = .ok q := actualProximal_of_inherits c id q h
+open Rounding in
+/-- the same bound in the usual form: relative error at most `(1+u)⁴ − 1` (≈ 4u) -/
+theorem length_rounding_abs {u : ℝ} (M : FloatModel u) (hu0 : 0 ≤ u) (hu1 : u ≤ 1) (p d : Pt ℝ) (par : Option (Par ℝ)) :
+    ∃ v, flLength M (mkSeg p d par) = .ok v ∧ |v - dist3 p d| ≤ ((1 + u) ^ 4 - 1) * dist3 p d := by
+  obtain ⟨v, h, hn⟩ := length_rounding M hu0 hu1 p d par
+  exact ⟨v, h, near_abs hu0 hu1 (dist3_nonneg p d) hn⟩
 
-/-- one step of the definition, as the code computes it: own proximal point if present -/
-theorem actual_proximal_own (c : Cell ℝ) (fuel id : Nat) (seg : Seg ℝ) (p : Pt ℝ)
-    (h1 : getSegment c id = .ok seg) (h2 : seg.proximal = some p) : actualProximal c (fuel + 1) id = .ok p :=
-  get_actual_proximal_own _ _ id seg p h1 h2
+open Rounding in
+/-- **`Point3DWithDiam.distance_to` to rounding**: 4 roundings -/
+theorem distance_to_rounding {u : ℝ} (M : FloatModel u) (hu0 : 0 ≤ u) (hu1 : u ≤ 1) (a b : Pt ℝ) :
+    ∃ v, flDistanceTo M a b = .ok v ∧ Near u 4 v (dist3 a b) := by
+  refine ⟨_, ?_, near_fl_dist M hu0 hu1 a b⟩
+  simp only [flDistanceTo, Point3DWithDiam.distance_to, noOverflow, ipow2, Bool.false_eq_true, if_false]
+  rfl
 
-/-- the three getters, for a segment whose actual proximal point is `q`: the segment-level formula applied to
-    `(q, distal)`. Covers both the segment's own proximal (`Inherits.own`) and an inherited one. -/
-theorem cell_getters (c : Cell ℝ) (id : Nat) (seg : Seg ℝ) (q : Pt ℝ) (hs : getSegment c id = .ok seg)
-    (h : Inherits c id q) :
-    ∃ n, ∀ fuel, n ≤ fuel →
-      segmentLength c fuel id = Segment.length (mkSeg q seg.distal none) ∧
-      segmentVolume c fuel id = Segment.volume (mkSeg q seg.distal none) ∧
-      segmentSurfaceArea c fuel id = Segment.surface_area (mkSeg q seg.distal none) := by
-  obtain ⟨n, hn⟩ := actualProximal_of_inherits c id q h
-  refine ⟨n, fun fuel hf => ?_⟩
-  have hap := hn fuel hf
-  unfold segmentLength segmentVolume segmentSurfaceArea
-  cases hp : seg.proximal with
-  | some p =>
-    -- own proximal: `Inherits` can only have used `own`, so q = p
-    have hq : q = p := by
-      cases h with
-      | own h1 h2 => rw [hs] at h1; cases h1; rw [hp] at h2; cases h2; rfl
-      | atEnd h1 h2 => rw [hs] at h1; cases h1; rw [hp] at h2; cases h2
-      | along h1 h2 => rw [hs] at h1; cases h1; rw [hp] at h2; cases h2
-    subst hq
-    have hseg : seg = mkSeg q seg.distal seg.parent := by
-      obtain ⟨a, b, c'⟩ := seg; simp only [mkSeg] at *; rw [hp]
-    refine ⟨?_, ?_, ?_⟩
-    · rw [get_segment_length_own _ _ id seg q hs hp]
-      conv_lhs => rw [hseg]
-      rw [length_eval, length_eval]
-    · rw [get_segment_volume_own _ _ id seg q hs hp]
-      conv_lhs => rw [hseg]
-      exact volume_par_irrel _ _ _ _
-    · rw [get_segment_surface_area_own _ _ id seg q hs hp]
-      conv_lhs => rw [hseg]
-      exact surface_area_par_irrel _ _ _ _
-  | none =>
-    exact ⟨get_segment_length_inh _ _ id seg q hs hp hap, get_segment_volume_inh _ _ id seg q hs hp hap,
-      get_segment_surface_area_inh _ _ id seg q hs hp hap⟩
-
-/-- non-trivial instance: segment 1 has no proximal point and hangs half-way along segment 0 -/
-noncomputable def exCell : Cell ℝ :=
-  [(0, ⟨some ⟨0, 0, 0, 2⟩, ⟨10, 0, 0, 4⟩, none⟩), (1, ⟨none, ⟨5, 7, 0, 1⟩, some ⟨0, 1 / 2⟩⟩)]
-
-example : Inherits exCell 1 (lerp (1 / 2) ⟨0, 0, 0, 2⟩ ⟨10, 0, 0, 4⟩) :=
-  Inherits.along (seg := ⟨none, ⟨5, 7, 0, 1⟩, some ⟨0, 1 / 2⟩⟩) (ps := ⟨some ⟨0, 0, 0, 2⟩, ⟨10, 0, 0, 4⟩, none⟩)
-    (par := ⟨0, 1 / 2⟩) (by simp [exCell, getSegment]) rfl rfl (by simp [exCell, getSegment])
-    (Inherits.own (seg := ⟨some ⟨0, 0, 0, 2⟩, ⟨10, 0, 0, 4⟩, none⟩) (by simp [exCell, getSegment]) rfl)
+/-- the hypotheses are satisfiable: exact arithmetic is a floating-point model for `u = 2⁻⁵³`, and in it the
+    theorem gives back the exact distance up to the stated bound -/
+example : ∃ v, Rounding.flLength (Rounding.FloatModel.exact ((2:ℝ)⁻¹ ^ 53) (by positivity))
+    (mkSeg (⟨0, 0, 0, 2⟩ : Pt ℝ) ⟨3, 4, 12, 4⟩ none) = .ok v ∧
+    Rounding.Near ((2:ℝ)⁻¹ ^ 53) 4 v (dist3 ⟨0, 0, 0, 2⟩ ⟨3, 4, 12, 4⟩) :=
+  length_rounding _ (by positivity) (by
+    have : ((2:ℝ)⁻¹) ^ 53 ≤ 1 := pow_le_one₀ (by norm_num) (by norm_num)
+    exact this) _ _ _
 
 end NmlVerif.Geom.C12
